@@ -269,6 +269,7 @@ class Rules:
         if fname == 'engine/fwht.rs':
             src = self.r7_step_by(fname, src)
         src = self.r6_zip(fname, src)
+        src = self.r17_zero(fname, src)
         if fname in ('rate.rs', 'engine.rs') or fname.startswith('rate/rate_') or fname.startswith('engine/engine_'):
             src = self.r11_assoc(fname, src)
         if fname in ARCH_FILES:
@@ -309,6 +310,43 @@ class Rules:
             src = src[:m.start()] + new + src[k + 1:]
             m = re.search(pat, src)
         return src
+
+    def r17_zero(self, fname, src):
+        """R17: `ShardsRefMut::zero<R: RangeBounds<usize>>` is generic, and vstd specifies `start_bound`/`end_bound` only per
+        concrete range type. The function is emitted once per range form the crate calls it with (`a..b` -> `zero_range`,
+        `a..` -> `zero_from`; identical bodies, `R` replaced by the concrete type) and each call site is routed by the
+        syntactic form of its argument. Any other argument form is left alone (and then does not compile: undecided)."""
+        if fname == 'engine/shards.rs':
+            m = re.search(r'([ \t]*)pub fn zero<R: RangeBounds<usize>>\(&mut self, range: R\) \{', src)
+            if m:
+                items = rsx.parse_items(src)
+                for it in rsx.walk(items):
+                    if it.kind == 'fn' and it.name == 'zero' and it.body_open is not None:
+                        text = src[it.start:it.end]
+                        a = text.replace('pub fn zero<R: RangeBounds<usize>>(&mut self, range: R)', 'pub fn zero_range(&mut self, range: std::ops::Range<usize>)')
+                        b = text.replace('pub fn zero<R: RangeBounds<usize>>(&mut self, range: R)', 'pub fn zero_from(&mut self, range: std::ops::RangeFrom<usize>)')
+                        self.note('R17', fname, src, it.start, 'zero<R> -> zero_range + zero_from')
+                        return src[:it.start] + a + '\n\n    ' + b + src[it.end:]
+            return src
+        def route(m):
+            # argument = balanced text up to the matching parenthesis
+            i = m.end(); depth = 1; j = i
+            while depth:
+                c = src[j]
+                depth += c in '([{'; depth -= c in ')]}'
+                j += 1
+            arg = src[i:j - 1].strip()
+            if arg.endswith('..'):
+                return 'zero_from('
+            if '..' in arg and '..=' not in arg and not arg.startswith('..'):
+                return 'zero_range('
+            return m.group(0)
+        out, last = [], 0
+        for m in re.finditer(r'(?<=\.)zero\(', src):
+            out.append(src[last:m.start()]); out.append(route(m)); last = m.end()
+            self.note('R17', fname, src, m.start(), 'call site')
+        out.append(src[last:])
+        return ''.join(out)
 
     def r6_zip(self, fname, src):
         n = [0]
